@@ -119,6 +119,13 @@ pub fn group_of(store: &Store, k: &Pubkey) -> Option<MarginfiGroup> {
     }
     load_group(&a.data)
 }
+pub fn staked_settings_of(store: &Store, group: &Pubkey) -> Option<marginfi_type_crate::types::StakedSettings> {
+    let a = store.get(&crate::ix::staked_settings_pda(group))?;
+    if a.owner != marginfi_id() {
+        return None;
+    }
+    read_pod::<marginfi_type_crate::types::StakedSettings>(&a.data, &discriminators::STAKED_SETTINGS)
+}
 pub fn fee_state_of(store: &Store) -> Option<FeeState> {
     let a = store.get(&crate::ix::fee_state_pda())?;
     if a.owner != marginfi_id() {
